@@ -465,6 +465,33 @@ theorem method_copy {n i : Nat} {ms ms2 : KV} {mm mm1 : SML} {labels labels1 : L
 theorem names_distinct {name : String} {i j : Nat} (h : rename name i = rename name j) : i = j :=
   rename_inj h
 
+/-! ### no history: a holder's mappings are built from its own dictionaries only -/
+
+/-- `program_mapping_local`: the sub-parameter mapping of a program holder is computed from the static
+class mappings and that program's own `method_labels` — it does not depend on the other programs of
+this holder (nor on any holder built before: `mkPH` takes nothing else).  This is the model's side of
+the same-process history check (one holder serving analyses A, B, A; twin holders from the same
+dictionaries; class-level mappings compared before / after the run). -/
+theorem program_mapping_local (maps : Maps) (name : String) (p : J) (rest : KV) :
+    (progMapsOf maps (.cons name p rest)).lookup name
+      = some (match p with
+              | .obj pk => .high (progMapOf maps pk)
+              | _ => .gen) ∧
+    ∀ other, other ≠ name →
+      (progMapsOf maps (.cons name p rest)).lookup other = (progMapsOf maps rest).lookup other := by
+  constructor
+  · cases p <;> simp [progMapsOf, SML.lookup]
+  · intro other h
+    simp [progMapsOf, SML.lookup, Ne.symm h]
+
+/-- a holder renders exactly the dictionaries it was built from, whatever was built before -/
+theorem holder_renders_its_input (maps : Maps) (sim programs vw out : KV) (baseline : String) :
+    (mkPH maps sim programs vw out baseline).sim = sim ∧
+    (mkPH maps sim programs vw out baseline).programs = programs ∧
+    (mkPH maps sim programs vw out baseline).vw = vw ∧
+    (mkPH maps sim programs vw out baseline).out = out :=
+  ⟨rfl, rfl, rfl, rfl⟩
+
 /-! ### the full-strength statement is false of the code as it stands (recorded finding) -/
 
 private def cxMaps : Maps :=
